@@ -206,7 +206,8 @@ def user_table(rng, builtin_keys):
         elif r < 0.55:
             v = 'vp-%s' % tag
         elif r < 0.8:
-            v = 'raw %s ${1:x} body ${2}' % tag
+            ph = ['x', ':hover', '::before', 'a:b', 'http://x.y/z', '-x', '#fc0', '1.5', 'p q', '.c', '!', '0', 'X', '@m']
+            v = rng.choice(['raw %s ${1:%s} body ${2}', '%s${1:%s} {\n\t${2}\n}', 'raw %s ${2:%s} then ${1}', 'raw %s${1:%s}${2:z}']) % (tag, rng.choice(ph))
         else:
             v = '@%s {\n\t${0}\n}' % tag
         tbl[k] = v
